@@ -154,7 +154,7 @@ JOBS['C20'] = [
 
 # ---------------------------------------------------------------- C10
 META['C10'] = {
-    'bounds': {'quick': '90 pattern templates (literals, ., brackets with ranges/negation/classes, ^ $ \\< \\>, groups, |, * + ? {m,n}, nesting depth 2, up to 4 groups) with symbolic placeholder characters over {a A 1 U+00E9} x all newline-terminated lines of <=2 characters over that alphabet plus space x icase x notbol x noteol; 8 templates with open-ended bounds {2,} on lines of <=3 characters; sets of 2-3 patterns',
+    'bounds': {'quick': '95 pattern templates (literals, ., brackets with ranges/negation/classes and brackets holding ] ( [ or a final backslash, ^ $ \\< \\>, groups, |, * + ? {m,n}, nesting depth 2, up to 4 groups) with symbolic placeholder characters over {a A 1 U+00E9} x all newline-terminated lines of <=2 characters over that alphabet plus space x icase x notbol x noteol; the literal and bracket templates again with placeholders over {a U+00E9 U+0628 U+4E2D} and lines over {a 1 U+00E9 U+0628 U+0434 U+4E2D U+1F600} (every encoded length, lead bytes c3 d0 d8 e4 f0); 8 templates with open-ended bounds {2,} on lines of <=3 characters',
                'thorough': 'lines of <=3 characters, alphabet {a b A 1 _ U+00E9 U+00C9 space}; open-ended bounds on lines of <=4 characters'},
     'outside': 'lines longer than the bound; patterns outside the templates (C11 covers their safety); completeness is asserted only on paths where fewer than 256 re_rec frames were live (engine-side observation instead of a source hook)',
     'assumptions': ['reference semantics: leftmost start, greedy quantifiers, left-biased alternation, captures of the last iteration (harness/ref_re.h); case folding of ASCII letters only, as in the C locale'],
@@ -164,7 +164,7 @@ JOBS['C10'] = [
      'defs': {'quick': {'LL': 2}, 'thorough': {'LL': 3, 'WIDE': 1}}, 'variants': [{'TSET': i} for i in range(5)],
      'expect_reach': ['end', 'found', 'notfound', 'agree'], 'timeout': {'quick': 280, 'thorough': 1700}, 'max_steps': 5000000},
     {'name': 'multibyte', 'harness': 'c10_re.c', 'units': ['rset', 'regex', 'sbuf', 'uc'], 'track': 're_rec',
-     'defs': {'quick': {'LL': 2, 'MB': 1}, 'thorough': {'LL': 3, 'MB': 1}}, 'variants': [{'TSET': 0}, {'TSET': 1}, {'TSET': 2}],
+     'defs': {'quick': {'LL': 2, 'MB': 1}, 'thorough': {'LL': 3, 'MB': 1}}, 'variants': [{'TSET': 0}, {'TSET': 1}],
      'expect_reach': ['end', 'found', 'notfound', 'agree'], 'timeout': {'quick': 280, 'thorough': 1700}, 'max_steps': 5000000},
     {'name': 'open_bounds', 'harness': 'c10_re.c', 'units': ['rset', 'regex', 'sbuf', 'uc'], 'track': 're_rec',
      'defs': {'quick': {'LL': 3, 'TSET': 6}, 'thorough': {'LL': 4, 'TSET': 6}},
